@@ -29,7 +29,7 @@ TECHNIQUE = ('Coq proof over all prior states, batches and crash points of an ex
              'correspondence check of the recorded raw file-system operations of the real code against the model')
 LEVEL_TEXT = ('Theorems over Crash.v (26 in P_C06.v): for every directory state, request and crash state (every prefix of the '
               'operation list and every byte-granular tear of a temp-file write) of write_atomic / FileCache._store / '
-              '_store_single_color_tile the stored address reads old, complete new, or missing when the property allows it, and '
+              '_store_single_color_tile (repaired) the stored address reads old, complete new, or missing only if it was missing or a symlink replaced by _store, and '
               'addresses the operations do not name are unchanged; for v1/v2 bundles: every raw write sequence that satisfies the '
               'checked discipline raw_ok (append, header rewrite, aligned index entries that publish complete records only) is '
               'crash safe for every prior state with the index invariant, the invariant holds initially and is preserved, and the '
@@ -41,7 +41,7 @@ LEVEL_NOTE = ('Trusted: Coq kernel, hand-written Crash.v, fstrace interposition 
               'cannot be torn for any B divisible by 8; proved limits: byte tear of a v2 entry and page tear of v1 slot 1635 '
               'expose a bad read).  CPython buffered I/O flush order is observed, not modelled: the bundle theorems quantify over '
               'every raw sequence with raw_ok, and raw_ok is evaluated in Coq on each recorded sequence.  Batches that span '
-              'several bundle files are covered by the oracle only.  Known finding: regular tile replaced by a single colour link.')
+              'several bundle files are covered by the oracle only.  Repaired finding (regression in corpus/C06): regular tile replaced by a single colour link.')
 DESIGN_REF = 'DESIGN.md section 5, C06'
 RULE = ('case = one store (pre-state directory, request/batch, recorded raw ops, reads in every crash state); '
         'non-trivial = pre-state has content for some address or the store replaces a link / a record; distinct by '
@@ -59,7 +59,6 @@ ASSUMPTIONS = ['A1: after process death the file system holds the effect of a pr
 EXPLANATION = ('crash safety proved for every crash point of the modelled writers; the order of the real raw writes is pinned by '
                'the correspondence; every raw prefix of every generated history is replayed against the real readers')
 
-KF_REGULAR_TO_LINK = 'file-link:regular-tile-replaced-by-link:missing'
 
 TMP_TAG = '.tmp-'
 
@@ -135,10 +134,17 @@ class Env(object):
         self.saved_random = ufs.random
         self.rnd = FixedRandom(ctx.rng)
         ufs.random = self.rnd
+        import mapproxy.cache.file as cfile
+        self.cfile = cfile
+        self.saved_cfile_random = cfile.__dict__.get('random')
+        if self.saved_cfile_random is not None:      # the link temp name of _store_single_color_tile
+            cfile.random = self.rnd
 
     def close(self):
         self.tr.unpatch()
         self.ufs.random = self.saved_random
+        if self.saved_cfile_random is not None:
+            self.cfile.random = self.saved_cfile_random
 
     def traced(self, fn):
         """run fn() with tracing; returns (ops, exception type name or None)."""
@@ -182,7 +188,7 @@ def canon_ops(raw):
     canon, base = [], []
     prev_write = False
     for op in raw:
-        if op[0] in ('mkdir', 'chmod'):
+        if op[0] in ('mkdir', 'chmod', 'write-unlinked'):
             base.append(None)
             continue
         if op[0] == 'write' and prev_write and canon[-1][1] == op[1] and canon[-1][2] + len(canon[-1][3]) == op[2]:
@@ -314,6 +320,8 @@ FILE_CHECKER = (
     "let m := drop_empty (file_store_ops s rq) in "
     "list_eqb fsop_eqb m ops && "
     "forallb (fun a => negb (is_tmp_name a)) addrs && "
+    "match rq_color rq with Some sc => negb (is_tmp_name sc) | None => true end && "
+    "is_tmp_name (tmp_of (rq_loc rq) (rq_sfx2 rq)) && "
     "forallb (fun o => let '(k, cut, rs) := o in "
     "  list_eqb rres_eqb (map (read_path (crash_state_at s ops k cut)) addrs) rs) obs")
 
@@ -351,11 +359,20 @@ def scen_file(ctx, mode, nsteps, out):
             pre_dir = os.path.join(root, 'pre')
             env.fstrace.copy_tree(cdir, pre_dir)
             old = read_file_cache(cdir, mode, coords)
+            # what os.path.exists / os.path.samefile of the real code will see (inode identity is not in the model)
+            sc_exists = sc is not None and os.path.exists(os.path.join(cdir, sc))
+            samefile = False
+            if sc is not None:
+                tl = os.path.join(cdir, locs[ti])
+                if locs[ti] in pre and pre[locs[ti]] == ('link', sc):
+                    samefile = True
+                elif sc_exists and os.path.exists(tl):
+                    samefile = os.path.samefile(os.path.join(cdir, sc), tl)
             # force a collision with a stale temp file left by an earlier crash
             if stale_tmp is not None and stale_tmp[0] in pre and rng.random() < 0.7:
                 tp, num = stale_tmp
                 target = tp[:tp.rindex(TMP_TAG)]
-                want = sc if (sc is not None and sc not in pre) else locs[ti]
+                want = sc if (sc is not None and not sc_exists) else locs[ti]
                 if target == want:
                     env.rnd.force = num
             env.rnd.used = []
@@ -363,9 +380,16 @@ def scen_file(ctx, mode, nsteps, out):
             raw, exc = env.traced(lambda: cache.store_tile(tile))
             env.rnd.force = None
             new = read_file_cache(cdir, mode, coords)
-            sfx = str(env.rnd.used[0]) if env.rnd.used else '0'
-            canon, ccoords, base = canon_ops(raw)
             linked = bool(mode) and sc is not None
+            used = [str(u) for u in env.rnd.used]
+            # first suffix: write_atomic (tile or colour file); second: the link temp name
+            if linked and sc_exists:
+                sfx, sfx2 = '0', (used[0] if used else '0')
+            elif linked:
+                sfx, sfx2 = (used[0] if used else '0'), (used[1] if len(used) > 1 else '0')
+            else:
+                sfx, sfx2 = (used[0] if used else '0'), '0'
+            canon, ccoords, base = canon_ops(raw)
             tkind = 'absent' if locs[ti] not in pre else ('link' if pre[locs[ti]][0] == 'link' else 'regular')
             if tkind == 'regular' and any(p.startswith('single_color_tiles/') and n[0] == 'file' and n[1] == pre[locs[ti]][1]
                                           for p, n in pre.items()):
@@ -375,7 +399,8 @@ def scen_file(ctx, mode, nsteps, out):
             ctx.count('file:store=' + ('link' if linked else 'plain') + (',raised' if exc else ''))
             rep = {'writer': 'FileCache.store_tile', 'link_single_color_images': mode, 'coord': coord,
                    'pre_state': {p: (n[0], n[1].hex() if n[0] == 'file' else n[1]) for p, n in pre.items()},
-                   'data': data.hex(), 'tmp_suffix': sfx, 'raw_ops': [describe_op(o) for o in raw], 'raised': exc}
+                   'data': data.hex(), 'tmp_suffix': sfx, 'link_tmp_suffix': sfx2, 'samefile': samefile,
+                   'raw_ops': [describe_op(o) for o in raw], 'raised': exc}
             # tracing completeness: replaying everything reproduces the directory
             chk = os.path.join(root, 'chk')
             env.fstrace.copy_tree(pre_dir, chk)
@@ -407,14 +432,8 @@ def scen_file(ctx, mode, nsteps, out):
                     if j != ti:
                         ctx.fail('file:other-address-affected:' + classify_bad(r, [old[j]], old + new),
                                  'an address that is not being stored changed in a crash state', where)
-                    elif r[0] == 'missing' and (tkind == 'link'):
-                        pass                      # a linked single colour tile was being replaced
-                    elif r[0] == 'missing' and linked and tkind == 'hardlinked':
-                        pass                      # hard-linked single colour tile replaced by another link
-                    elif r[0] == 'missing' and linked:
-                        ctx.fail(KF_REGULAR_TO_LINK,
-                                 'a regular tile file is unlinked before the single colour link is created: in between the '
-                                 'address reports missing although it had content', where)
+                    elif r[0] == 'missing' and tkind == 'link' and not linked:
+                        pass                      # FileCache._store replaces a symlink by a regular tile (unlink first)
                     else:
                         ctx.fail('file:' + modename + ':' + classify_bad(r, allowed, old + new),
                                  'crash state exposes a result that is neither the old nor the complete new content', where)
@@ -435,9 +454,10 @@ def scen_file(ctx, mode, nsteps, out):
                       'ops': [describe_op(o) for o in canon], 'crash_states_read': walk.n})
             ctx.count('file:crash-states', walk.n)
             # ---- correspondence case
-            req = '(mkReq %s %s %s %s %s)' % (
+            req = '(mkReq %s %s %s %s %s %s %s)' % (
                 plit(locs[ti]), bytes_lit(data), {False: 'LNone', True: 'LSym', 'hardlink': 'LHard'}[mode],
-                'None' if sc is None else '(Some %s)' % plit(sc), bytes_lit(sfx.encode()))
+                'None' if sc is None else '(Some %s)' % plit(sc), bytes_lit(sfx.encode()), bytes_lit(sfx2.encode()),
+                'true' if samefile else 'false')
             term = '(%s, %s, %s, %s, %s)' % (
                 '[' + '; '.join('(%s, %s)' % (plit(p), node_lit(n)) for p, n in sorted(pre.items())) + ']',
                 req, '[' + '; '.join(fsop_lit(o) for o in canon) + ']',
@@ -948,13 +968,17 @@ def replay_corpus(ctx, out):
             continue
         w = json.load(open(os.path.join(d, fn)))
         if w.get('kind') == 'file-regular-then-single-colour':
-            corpus_regular_then_link(ctx, w)
+            try:
+                corpus_regular_then_link(ctx, w)
+            except Exception as e:
+                ctx.problem('harness', 'corpus witness %s stopped by %r' % (fn, e))
         ctx.count('corpus:' + fn)
 
 
 def corpus_regular_then_link(ctx, w):
-    """store a multi-colour tile, then a single colour tile at the same address, link mode: the crash state after
-    the unlink reports the address missing (known finding)."""
+    """store a multi-colour tile, then a single colour tile at the same address, link mode: formerly the crash
+    state after the unlink reported the address missing (finding repaired: link under a temp name + rename);
+    the witness is kept as a regression."""
     from mapproxy.cache.file import FileCache
     from mapproxy.cache.tile import Tile
     from mapproxy.image import ImageSource
@@ -973,19 +997,16 @@ def corpus_regular_then_link(ctx, w):
         env.fstrace.copy_tree(cdir, pre_dir)
         old = read_file_cache(cdir, mode, [coord])[0]
         raw, exc = env.traced(lambda: cache.store_tile(Tile(coord, ImageSource(io.BytesIO(png_bytes(None, tuple(w['color'])))))))
+        new = read_file_cache(cdir, mode, [coord])[0]
         walk = CrashWalk(env, pre_dir, root)
-        hit = False
-        for i, c, d in walk.states(raw, lambda i, op: []):
+        for i, c, d in walk.states(raw, lambda i, op: cut_points(ctx, len(op[3]), True)):
             r = read_file_cache(d, mode, [coord])[0]
-            if r[0] == 'missing' and old[0] == 'data':
-                hit = True
-                ctx.fail(KF_REGULAR_TO_LINK,
-                         'a regular tile file is unlinked before the single colour link is created: in between the '
-                         'address reports missing although it had content',
-                         {'corpus': w, 'raw_ops': [describe_op(o) for o in raw], 'crash_after_raw_ops': i})
-        ctx.case(('corpus', w['mode'], hit), True, {'corpus': w, 'reproduced': hit})
-        if not hit:
-            ctx.notes.append('corpus witness %r no longer reproduces (finding repaired?)' % (w,))
+            if r not in (old, new):
+                ctx.fail('file:%s:%s' % (w['mode'], classify_bad(r, [old, new], [])),
+                         'a regular tile replaced by a single colour link is not old-or-new in a crash state',
+                         {'corpus': w, 'raw_ops': [describe_op(o) for o in raw], 'crash_after_raw_ops': i, 'torn_bytes': c,
+                          'read': describe_r(r)})
+        ctx.case(('corpus', w['mode']), True, {'corpus': w, 'crash_states_read': walk.n})
     finally:
         env.close()
 
@@ -1001,19 +1022,29 @@ def run(ctx):
 
     def mark(name):
         marks.append('%s=%.1fs' % (name, time.time() - t0))
-    replay_corpus(ctx, out)
+    import traceback
+
+    def guarded(what, fn, *a, **kw):
+        """a harness error in one history must not mask the oracle results of the others"""
+        try:
+            fn(*a, **kw)
+        except Exception as e:
+            ctx.problem('harness', 'history %s stopped by %r (the other histories continue)' % (what, e),
+                        traceback.format_exc()[-3000:])
+    guarded('corpus', replay_corpus, ctx, out)
     q = ctx.quick
     for mode in (False, True, 'hardlink'):
         for rep in range(ctx.n(2, 8)):
-            scen_file(ctx, mode, ctx.n(9, 14), out)
+            guarded('file/%s/%d' % (mode, rep), scen_file, ctx, mode, ctx.n(9, 14), out)
     mark('file-scenarios')
     for kind in ('legend', 'progress'):
         for rep in range(ctx.n(1, 4)):
-            scen_atomic(ctx, kind, ctx.n(6, 10), out)
+            guarded('%s/%d' % (kind, rep), scen_atomic, ctx, kind, ctx.n(6, 10), out)
     mark('atomic-scenarios')
     for version in (2, 1):
         for rep in range(ctx.n(3, 12)):
-            scen_compact(ctx, version, ctx.n(4, 6), out, big=(rep == 0 and (version == 2 or not q)))
+            guarded('compact-v%d/%d' % (version, rep), scen_compact, ctx, version, ctx.n(4, 6), out,
+                    big=(rep == 0 and (version == 2 or not q)))
         mark('compact-v%d-scenarios' % version)
     ctx.corr_check('file_store', 'Bytes Crash', FILE_CASE_TYPE, out['file_terms'], FILE_CHECKER,
                    lambda i: out['file_descr'][i], shard=12 if q else 20)
